@@ -6,7 +6,7 @@ SCOPES = {
     'get_root': (0, 1), 'prepare': (1, 1), 'get_root_closer': (2, 2), 'prepare_closer': (3, 2),
     'prepare_with': (4, 0), 'cfg_commit': (5, 0), 'cfg_action': (6, 0), 'cfg_include': (7, 0),
     'cfg_make_wsgi_app': (8, 0), 'cfg_route_prefix': (9, 0), 'cfg_with': (10, 0),
-    'exception_view': (11, 0), 'subrequest': (12, 0), 'request_context_manual': (13, 0), 'wsgi_call': (14, 0),
+    'exception_view': (11, 0), 'exception_view_reraise': (11, 0), 'subrequest': (12, 0), 'request_context_manual': (13, 0), 'wsgi_call': (14, 0),
 }
 # where the single failure is injected, per scope (0 = nowhere)
 SITES = {
@@ -21,10 +21,11 @@ SITES = {
     'cfg_make_wsgi_app': ['none', 'subscriber', 'action'],
     'cfg_route_prefix': ['none', 'body'],
     'cfg_with': ['none', 'body', 'action'],
-    'exception_view': ['none', 'view', 'noview'],
+    'exception_view': ['none', 'view', 'view_base', 'mismatch', 'noview'],
+    'exception_view_reraise': ['none', 'view', 'view_base', 'mismatch', 'noview'],
     'subrequest': ['none', 'view'],
     'request_context_manual': ['none', 'body'],
-    'wsgi_call': ['none', 'view', 'request_factory'],
+    'wsgi_call': ['none', 'view', 'request_factory', 'tween_reraise', 'tween_reraise_mismatch'],
 }
 
 
@@ -202,32 +203,40 @@ def run_scope(name, site):
                 if site == 'body':
                     raise Boom()
         return _observe(f)
-    if name == 'exception_view':
+    if name in ('exception_view', 'exception_view_reraise'):
+        # explicit request.invoke_exception_view(reraise=...): the view renders / raises an Exception /
+        # raises a BaseException / is rejected by its predicate (PredicateMismatch) / does not exist
         c = _config()
+        c.add_view_predicate('c13no', _NoPred)
 
         def ev(exc, request):
             _see_request(request)
             if site == 'view':
                 raise Boom()
+            if site == 'view_base':
+                raise BaseBoom()
             return Response('x')
-        if site != 'noview':
+        if site == 'mismatch':
+            c.add_exception_view(ev, context=Boom, c13no=True)
+        elif site != 'noview':
             c.add_exception_view(ev, context=Boom)
         c.commit()
         req = Request.blank('/')
         req.registry = c.registry
+        reraise = (name == 'exception_view_reraise')
 
         def f():
             try:
                 raise Boom()
             except Boom:
-                req.invoke_exception_view()
+                req.invoke_exception_view(reraise=reraise)
         return _observe(f)
     if name in ('subrequest', 'wsgi_call', 'request_context_manual'):
         c = _config()
 
         def v(request):
             _see_request(request)
-            if site == 'view':
+            if site in ('view', 'tween_reraise', 'tween_reraise_mismatch'):
                 raise Boom()
             return Response('x')
         c.add_view(v)
@@ -235,6 +244,19 @@ def run_scope(name, site):
             def rf(environ):
                 raise Boom()
             c.set_request_factory(rf)
+        if site in ('tween_reraise', 'tween_reraise_mismatch'):
+            # a tween over the excview tween that renders failures itself with reraise=True, while the
+            # only exception view raises (or is rejected by its predicate)
+            from pyramid.tweens import EXCVIEW
+            c.add_view_predicate('c13no', _NoPred)
+
+            def ev2(exc, request):
+                raise Boom()
+            if site == 'tween_reraise':
+                c.add_exception_view(ev2, context=Exception)
+            else:
+                c.add_exception_view(ev2, context=Exception, c13no=True)
+            c.add_tween('harness.c13.scopes.reraise_tween_factory', over=EXCVIEW)
         app = c.make_wsgi_app()
         if name == 'subrequest':
             return _observe(lambda: app.invoke_subrequest(Request.blank('/')))
@@ -255,6 +277,27 @@ def run_scope(name, site):
 
 
 _CUR = {}
+
+
+class _NoPred:
+    def __init__(self, val, info):
+        pass
+
+    def text(self):
+        return 'c13no'
+    phash = text
+
+    def __call__(self, context, request):
+        return False
+
+
+def reraise_tween_factory(handler, registry):
+    def reraise_tween(request):
+        try:
+            return handler(request)
+        except Exception:
+            return request.invoke_exception_view(reraise=True)
+    return reraise_tween
 
 
 def _includeme_ok(config):
